@@ -13,6 +13,14 @@ def _decode_entropy(mnemonic):
     return SB.entropy_from_mnemonic(mnemonic)
 
 
+class _Exhausted(BaseException):
+    """a creation asked the substituted OS source more than MAX_REQUESTS times (rejection sampling that never accepts
+    a constant stream, e.g. randrange(2**ENT) on all-ones): the sample is inconclusive, not a violation"""
+
+
+MAX_REQUESTS = 256
+
+
 class _Source:
     """replacement for os.urandom / random._urandom: records request sizes; serves a chosen stream or real bytes"""
     def __init__(self, mode):
@@ -21,6 +29,8 @@ class _Source:
 
     def __call__(self, n):
         self.requests.append(n)
+        if len(self.requests) > MAX_REQUESTS:
+            raise _Exhausted()
         if self.mode == "unavailable":
             raise NotImplementedError("no OS randomness source")
         if self.mode == "ones":
@@ -39,7 +49,7 @@ def harness(item):
     import btc_hd_wallet.bip39 as bip39
     from btc_hd_wallet import BaseWallet, PaperWallet
     bad = None
-    evals = 0
+    evals = skipped = 0
 
     def check(cond, what):
         nonlocal bad
@@ -64,6 +74,9 @@ def harness(item):
                         random.seed(4242)                      # the process-wide PRNG is reset before EVERY creation
                         try:
                             m = mk(bits, wc)
+                        except _Exhausted:
+                            skipped += 1
+                            continue
                         finally:
                             os.urandom, random._urandom = real_u, real_ru
                         evals += 1
@@ -94,7 +107,7 @@ def harness(item):
                     try:
                         m = mk(bits, wc)
                         check(False, f"{name}({wc} words): a wallet was created although the OS randomness source is unavailable")
-                    except NotImplementedError:
+                    except (NotImplementedError, _Exhausted):
                         pass
                     except Exception:
                         pass
@@ -107,7 +120,8 @@ def harness(item):
         os.urandom, random._urandom = real_u, real_ru
         random.setstate(state)
     o = dict(name="C08.bounded.os_source", kind="bounded", backend="bounded", verdict="HELD" if bad is None else "VIOLATED", evaluations=evals,
-             bound="5 lengths x 5 creation paths x (3 real + 2 all-ones + 2 all-zero + 2 patterned OS streams + 1 unavailable source), process-wide PRNG reseeded before every creation",
+             bound="5 lengths x 5 creation paths x (3 real + 2 all-ones + 2 all-zero + 2 patterned OS streams + 1 unavailable source), process-wide PRNG reseeded before every creation"
+               + (f"; {skipped} creation(s) inconclusive (more than {MAX_REQUESTS} requests to a constant stream)" if skipped else ""),
              clause="C08.bounded.os_source")
     if bad:
         o.update(detail=bad, confirmed=True, replay=dict(confirmed=True, failed=[bad]))
